@@ -244,6 +244,29 @@ def r3(ctx):
     for s in sets:
         ok = bool(cdr) and con.cfg.all_paths_pass(s.id, [con.cfg.exit.id], [d.id for d in cdr], NONEXC)
         ctx.check(ok, R, "_connect:drain-after-connect", m, s.ast, "every normal path after is_connected=True awaits _drain_message_queue()", "a path completes without draining" if cdr else "no awaited drain")
+    # the drain itself starts whenever the socket is connected: any further entry condition on object state (a "draining"
+    # flag) must be given back on every way out, cancellation included, or one cancelled write blocks every later drain
+    dr = sock_fn(ctx, "_drain_message_queue", precise=True)
+    g = dr.cfg
+    wr = [n for n, c in dr.calls("self._write")]
+    entry_flags = {}
+    for t in dr.tests(lambda e: (dotted(e) or "").startswith("self.") and not isinstance(e, ast.Call)):
+        d = dotted(t.ast)
+        if d in ("self.is_connected", "self._message_queue") or d.startswith("self._message_queue"):
+            continue
+        for lab in ("true", "false"):
+            if wr and all(g.dominates(dr.branch(t, lab).id, w.id) for w in wr):
+                entry_flags[d] = lab
+    bad = []
+    for fl, lab in entry_flags.items():
+        blocking = lab == "false"  # we proceed when the flag is false: a flag left True blocks
+        setv, clrv = (True, False) if blocking else (False, True)
+        sets = [n for n, v in dr.assigns(fl) if isinstance(v, ast.Constant) and v.value is setv]
+        clears = [n for n, v in dr.assigns(fl) if isinstance(v, ast.Constant) and v.value is clrv]
+        for sn in sets:
+            if not (clears and g.all_paths_pass(sn.id, [g.exit.id, g.raise_exit.id], [c.id for c in clears], None)):
+                bad.append((fl, sn))
+    ctx.check(not bad, R, "_drain_message_queue:entry-condition", m, (bad[0][1].ast if bad else dr.node), "queued messages are written whenever the socket is connected; a re-entrancy flag tested on entry is released on every exit (finally), also when the write is cancelled", "; ".join(f"{fl} set at line {sn.lineno} is not released on every exit: after a cancelled or failing write nothing is ever drained again" for fl, sn in bad))
     # who-may-call
     callers = package_calls(ctx.repo, lambda d: d.endswith("._enqueue_message"))
     bad = [(mm, q, c) for mm, q, c in callers if not (mm.name == SOCKET and q == f"{SOCK_CLS}.send_with_header")]
